@@ -184,3 +184,29 @@ Definition run_layout_roundtrip (m : mode) (a : list N) : list N :=
 (* Spec oracle: [F,T,Z,N,Al, data...] -> RFC 4.4.1.2 source packets *)
 Definition run_spec_layout_packets (a : list N) : list N :=
   1 :: flat_packets (source_packets_spec (cfg_of a) (skipn 5 a)).
+
+(* ---- slab replay (C09): [T, count, nread, nopvals, opvals..., data...] ---- *)
+Fixpoint decode_ops (fuel : nat) (v : list N) : list symbol_op :=
+  match fuel with
+  | O => []
+  | S f =>
+      match v with
+      | 1 :: d :: s :: t => SAdd d s :: decode_ops f t
+      | 2 :: d :: c :: t => SMul d c :: decode_ops f t
+      | 3 :: d :: s :: c :: t => SFMA d s c :: decode_ops f t
+      | _ :: n :: t => SReorder (firstn (N.to_nat n) t) :: decode_ops f (skipn (N.to_nat n) t)
+      | _ => []
+      end
+  end.
+
+Definition run_slab_replay (m : mode) (a : list N) : list N :=
+  enc1l (let T := argn a 0 in let count := N.to_nat (argn a 1) in
+         let nread := N.to_nat (argn a 2) in let nv := N.to_nat (argn a 3) in
+         let ops := decode_ops nv (firstn nv (skipn 4 a)) in
+         let data := skipn (4 + nv) a in
+         (* SymbolSlab::from_symbols asserts every symbol has length T *)
+         let syms := firstn count (chunks (N.max T 1) data) in
+         assert_ok (forallb (fun s => Nat.eqb (length s) (N.to_nat T)) syms) ;;;
+         s' <- replay m ops (mkSlab syms (N.to_nat T) None) ;;
+         r <- slab_read s' nread 0 ;;
+         Ok (concat r)).
